@@ -1413,6 +1413,14 @@ pub fn object_group_by(
         }
     };
 
+    // The callback may remove the elements it has not seen yet from the source
+    // array: root the whole copy, not only the element being visited
+    for element in &elements {
+        if let JsValue::Object(obj) = element {
+            guard.guard(obj.cheap_clone());
+        }
+    }
+
     // Create result object with null prototype
     let result = interp.create_object(&guard);
     {
